@@ -46,7 +46,7 @@ type AttInfo struct {
 	Arrived     int               // op index
 	MustRefuse  map[string]string // dir -> reason the model demands refusal ("" = allowed)
 	Verdict     map[string]string // dir -> attached | refused | stuck | pending
-	AfterNoMore bool              // arrived after shutdown became effective
+	AfterNoMore map[string]bool   // dir -> admitted after shutdown became effective
 	Gen         map[string]int    // dir -> generation it attached in
 	EndedBy     map[string]string // dir -> cause of the end the harness expects
 	Tag         string
@@ -284,7 +284,7 @@ func Exec(h History) *Run {
 				rd = NewReader()
 			}
 			a := w.Arrive(op.AKind, op.Key, wr, rd)
-			ai := &AttInfo{A: a, Arrived: i, MustRefuse: map[string]string{}, Verdict: map[string]string{}, Gen: map[string]int{}, EndedBy: map[string]string{}}
+			ai := &AttInfo{A: a, Arrived: i, MustRefuse: map[string]string{}, AfterNoMore: map[string]bool{}, Verdict: map[string]string{}, Gen: map[string]int{}, EndedBy: map[string]string{}}
 			for _, d := range a.Dirs() {
 				ai.Verdict[d] = "pending"
 			}
@@ -310,7 +310,7 @@ func Exec(h History) *Run {
 			}
 			reason := m.mustRefuse(ai, dir, modelKey(ai))
 			ai.MustRefuse[dir] = reason
-			ai.AfterNoMore = m.noMore
+			ai.AfterNoMore[dir] = m.noMore
 			preAdmit := w.seq.Load()
 			v := ai.A.Admit(dir)
 			ai.Verdict[dir] = v
@@ -538,7 +538,7 @@ func Exec(h History) *Run {
 			t0 := time.Now()
 			for {
 				pa := w.Arrive(KIn, "", &Writer{Kind: "plain"}, nil)
-				pai := &AttInfo{A: pa, Arrived: i, MustRefuse: map[string]string{"input": "missing-id"}, Verdict: map[string]string{}, Gen: map[string]int{}, EndedBy: map[string]string{}, Tag: "shutdown-probe"}
+				pai := &AttInfo{A: pa, Arrived: i, MustRefuse: map[string]string{"input": "missing-id"}, AfterNoMore: map[string]bool{}, Verdict: map[string]string{}, Gen: map[string]int{}, EndedBy: map[string]string{}, Tag: "shutdown-probe"}
 				r.Atts = append(r.Atts, pai)
 				v := pa.Admit("input")
 				pai.Verdict["input"] = v
@@ -548,7 +548,7 @@ func Exec(h History) *Run {
 					break
 				}
 				if len(noticesFor(w.Trace(), pa.N)) == 0 {
-					pai.AfterNoMore = true
+					pai.AfterNoMore["input"] = true
 					m.noMore = true
 					r.NoMoreAt = w.Mark("shutdown effective")
 					break
@@ -688,4 +688,20 @@ func IsGone(e Ev) bool {
 }
 func IsReady(e Ev) bool {
 	return e.Kind == EvLine && !e.Plain && strings.HasSuffix(e.Data, "] "+iobroker.ShellReadyMessage)
+}
+
+// AllAfterNoMore reports whether every half of the attempt that was admitted
+// at all was admitted after shutdown had become effective.
+func (ai *AttInfo) AllAfterNoMore() bool {
+	n := 0
+	for _, d := range ai.A.Dirs() {
+		if ai.Verdict[d] == "pending" {
+			continue
+		}
+		if !ai.AfterNoMore[d] {
+			return false
+		}
+		n++
+	}
+	return n > 0
 }
